@@ -1008,6 +1008,13 @@ def origins(f, o, depth=14, _seen=None):
                     continue
             if dc and dc[0][1] != variant:
                 continue      # other variant: this def cannot reach the projected payload
+            if not dc and rest and isinstance(rest[0], list) and rest[0][0] == "f" and rest[0][1] < len(rv[3]):
+                sub = rv[3][rest[0][1]]
+                if sub[0] == "k":
+                    out.add(kdesc(f, sub[1]))
+                else:
+                    out |= origins(f, [sub[0], sub[1] + rest[1:]], depth - 2, _seen | {l})
+                continue
             out.add("agg:%s%s" % (rv[1].rsplit("::", 1)[-1], ("::" + variant) if variant else ""))
         elif rv[0] == "use":
             if rv[1][0] == "k":
